@@ -260,4 +260,69 @@ theorem gen_lookup_on_encoded (hf : CI.HF) (xx : List UInt8 → UInt64) (eh : UI
   exact lookupSpec_rel_lookupB hf eh (CI.encode ix) _ ix.valueSize ix.numBuckets i ix.metaKVs key fuel hvs252 hb heh
     (fun hi hh => encoded_hashLen ix ok i hi hh) hfu
 
+/-! ### `Open` on the encoder's file -/
+
+/-- on any file that starts with the model's header bytes, `openSpec` returns the header fields and the header length -/
+theorem openSpec_headerBytes_append (vs nb : Nat) (m : IndexMeta.KVs) (rest : List UInt8) (hvs : 0 < vs) (hvs2 : vs < 2 ^ 64)
+    (hnb : 0 < nb) (hnb2 : nb < 2 ^ 32) (hml : m.length ≤ 255) (hm : ∀ kv ∈ m, kv.1.length ≤ 255 ∧ kv.2.length ≤ 255) :
+    CIOpen.openSpec (CI.headerBytes vs nb m ++ rest) = some (vs, nb, m, (CI.headerBytes vs nb m).length) := by
+  have hmb := CI.metaBytes_length_le m hm
+  have hlen := CI.headerBytes_length vs nb m
+  have hload := CIHeader.loadSpec_headerBytes vs nb m hvs hvs2 hnb hnb2 hml hm
+  obtain ⟨R, hR⟩ : ∃ R, R = B.le 8 vs ++ B.le 4 nb ++ [UInt8.ofNat Generated.compactindexsizedVersion] ++ CI.metaBytes m := ⟨_, rfl⟩
+  have hRl : R.length = 13 + (CI.metaBytes m).length := by
+    rw [hR]; simp only [List.length_append, B.le_length, List.length_cons, List.length_nil]
+  have hH : CI.headerBytes vs nb m = CI.magic ++ (B.le 4 R.length ++ R) := by
+    rw [hR]; unfold CI.headerBytes; simp only [List.append_assoc]
+  have hmag : CI.magic.length = 8 := rfl
+  have hmagl : CI.magic = [99, 111, 109, 112, 105, 115, 122, 100] := by decide
+  unfold CIOpen.openSpec
+  have h12 : ¬ ((CI.headerBytes vs nb m ++ rest).length < 12) := by rw [List.length_append]; omega
+  rw [if_neg h12]
+  have t8 : (CI.headerBytes vs nb m ++ rest).take 8 = [99, 111, 109, 112, 105, 115, 122, 100] := by
+    rw [hH, List.append_assoc, List.take_left' hmag, hmagl]
+  have hn8 : ¬ ((CI.headerBytes vs nb m ++ rest).take 8 ≠ [99, 111, 109, 112, 105, 115, 122, 100]) := fun h => h t8
+  rw [if_neg hn8]
+  have f4 : ((CI.headerBytes vs nb m ++ rest).drop 8).take 4 = B.le 4 R.length := by
+    rw [hH, List.append_assoc, List.drop_left' hmag, List.append_assoc, List.take_left' (B.le_length 4 _)]
+  simp only [f4]
+  have hlt : R.length < 256 ^ 4 := by omega
+  rw [B.unle_le_of_lt _ _ hlt]
+  have hsz : ¬ (R.length < 13 ∨ R.length > 130574) := by omega
+  rw [if_neg hsz]
+  have hfit : ¬ ((CI.headerBytes vs nb m ++ rest).length < 12 + R.length) := by rw [List.length_append]; omega
+  rw [if_neg hfit]
+  have hHl : (CI.headerBytes vs nb m).length = 12 + R.length := by omega
+  rw [List.take_left' hHl, hload, hHl]
+
+/-- **C04 end to end on the translated reader**: on the file the model's encoder writes for an index (compared byte for
+    byte with the real builder's files on every run), the translated `Open` returns a DB with a nil error, and the
+    translated `DB.Lookup` on that DB answers what the abstract reader `CI.lookupA` answers — the inserted value for every
+    inserted key (`build_lookup`), `ErrNotFound` when the key's hash is not in its bucket -/
+theorem gen_open_lookup_on_encoded (hf : CI.HF) (xx : List UInt8 → UInt64) (eh : UInt32 → List UInt8 → UInt64)
+    (ix : CI.IndexA) (ok : CI.EncOk ix) (hv : CI.ValsOk ix) (key : List UInt8) (fuel : Nat) (i : Nat)
+    (hb : hf.bucket key ix.numBuckets = some i)
+    (hbh : ciBucketHash xx fuel { ValueSize := UInt64.ofNat ix.valueSize, NumBuckets := UInt32.ofNat ix.numBuckets,
+                                  Metadata := C10.ofKvs ix.metaKVs } key = .ok (UInt64.ofNat i))
+    (heh : ∀ n k, (eh n k).toNat = hf.entry64 n.toNat k) (hfu : 2 ^ 32 ≤ fuel) (hi64 : i < 2 ^ 64) :
+    ∃ db, ciOpen fuel (memRd (CI.encode ix)) = .ok (db, Go.Error.nil) ∧
+      Rel (CI.lookupA hf ix key) (ciDBLookup xx eh fuel db key) := by
+  have hsz := ok.size
+  have e48 : (2 : Nat) ^ 48 < 2 ^ 62 := by decide
+  have hvs255 : ix.valueSize ≤ 255 := by have := ok.vs_le; omega
+  have hspec := CIOpen.gen_ciOpen_eq_spec (CI.encode ix) fuel (by omega) (by omega)
+  have hE : CI.encode ix = CI.headerBytes ix.valueSize ix.numBuckets ix.metaKVs ++
+      (CI.tableFrom ix.valueSize ix.buckets ((CI.headerBytes ix.valueSize ix.numBuckets ix.metaKVs).length + Generated.bucketHdrLen * ix.numBuckets)
+        ++ ix.buckets.flatMap (CI.bucketBody ix.valueSize)) := by
+    unfold CI.encode; simp only [List.append_assoc]
+  have hos := openSpec_headerBytes_append ix.valueSize ix.numBuckets ix.metaKVs
+    (CI.tableFrom ix.valueSize ix.buckets ((CI.headerBytes ix.valueSize ix.numBuckets ix.metaKVs).length + Generated.bucketHdrLen * ix.numBuckets)
+        ++ ix.buckets.flatMap (CI.bucketBody ix.valueSize))
+    ok.vs_pos (by omega) ok.nb_pos ok.nb_lt ok.meta_n ok.meta_kv
+  rw [← hE] at hos
+  rw [hos] at hspec
+  simp only at hspec
+  refine ⟨_, hspec, ?_⟩
+  exact gen_lookup_on_encoded hf xx eh ix ok hv key fuel i _ rfl rfl rfl rfl hb hbh heh hfu hi64
+
 end GoTies.CIModel
